@@ -69,6 +69,10 @@ type BaseInSession struct {
 
 	audioUnpacker rtprtcp.IRtpUnpacker
 	videoUnpacker rtprtcp.IRtpUnpacker
+	// udp模式下音频和视频各有一个读协程，而包是按payload type分发给unpacker的（和从哪个端口收到无关），
+	// 所以同一个unpacker可能同时被两个协程喂入数据（比如对端或者端口的上一个使用者把视频包发到了音频端口）
+	audioUnpackMu sync.Mutex
+	videoUnpackMu sync.Mutex
 
 	audioSsrc nazaatomic.Uint32
 	videoSsrc nazaatomic.Uint32
@@ -407,7 +411,9 @@ func (session *BaseInSession) handleRtpPacket(b []byte) error {
 		session.mu.Unlock()
 
 		if session.audioUnpacker != nil {
+			session.audioUnpackMu.Lock()
 			session.audioUnpacker.Feed(pkt)
+			session.audioUnpackMu.Unlock()
 		}
 	} else if session.sdpCtx.IsVideoPayloadTypeOrigin(packetType) {
 		if session.dumpReadVideoRtp.ShouldDump() {
@@ -422,7 +428,9 @@ func (session *BaseInSession) handleRtpPacket(b []byte) error {
 		session.mu.Unlock()
 
 		if session.videoUnpacker != nil {
+			session.videoUnpackMu.Lock()
 			session.videoUnpacker.Feed(pkt)
+			session.videoUnpackMu.Unlock()
 		}
 	} else {
 		// noop 因为前面已经判断过type了，所以永远不会走到这
